@@ -463,7 +463,7 @@ class Bench(object):
         except SystemExit as e:
             res["out"], res["error"] = "error", "exit status %s" % (e.code,)
         except Exception as e:  # noqa - the command died
-            res["out"], res["error"] = "error", "%s: %s" % (type(e).__name__, str(e).replace(self.root, "<root>"))
+            res["out"], res["error"] = "error", "%s: %s" % (type(e).__name__, str(e).replace(self.work + os.sep, "").replace(self.root, "<root>"))
         finally:
             os.listdir = real_listdir
             _SRC["saved"] = None
@@ -820,6 +820,19 @@ def probe_refresh_reject(ctx):
     return "other", seen
 
 
+def probe_skip_flags(ctx):
+    """ignore-rejects with two rejects: what is written into the two skip.flag items?"""
+    model = {"ids": ["imgB", "imgE"], "kind": {"imgB": "nofetch", "imgE": "nofetch"}, "feed": ["imgB", "imgE"]}
+    cmds = [{"cmd": "appear", "id": i, "order": []} for i in model["feed"]] + [{"cmd": "refresh", "id": "-", "order": []}]
+    cmds += [{"cmd": "fetch", "id": i, "order": []} for i in model["feed"]] + [{"cmd": "ignore-rejects", "id": "-", "order": []}]
+    b, steps, _ = replay_commands(ctx, os.path.join(fast_tmp(ctx, "flags"), "f"), model, cmds)
+    out = {}
+    for i in model["ids"]:
+        p = os.path.join(b.store, i, "skip.flag")
+        out[i] = _read(p).decode(errors="replace") if os.path.isfile(p) else None
+    return out, steps, model, cmds
+
+
 # ------------------------------------------------------------------------------------------------
 
 def models(quick):
@@ -829,8 +842,8 @@ def models(quick):
     mix = {"ids": [A, D, B], "kind": {A: "ok", D: "ok", B: "nofetch"}, "feed": [A, B, D]}
     four = {"ids": [A, B, C, D], "kind": {A: "ok", B: "nofetch", C: "nosave", D: "ok"}, "feed": [A, C, B, D]}
     if quick:
-        return [("g3", three), ("g2", two)]
-    return [("g4", four), ("g3b", mix), ("g3", three)]
+        return [("g3", three)]
+    return [("g4", four), ("g3b", mix), ("g2", two), ("g3", three)]
 
 
 def run(ctx):
@@ -871,6 +884,10 @@ def _run(ctx):
 
     real_model, seen = probe_refresh_reject(ctx)
     ctx.note("refresh_with_a_candidate_whose_save_raises_NotActionableError", {"model": real_model, "observed": seen})
+    flags, fsteps, fmodel, fcmds = probe_skip_flags(ctx)
+    for st in fsteps:
+        for k, msg in st["alarms"]:
+            ctx.violation(k, "%s (after: %s)" % (msg, "; ".join(cmd_text(c) for c in fcmds)), {"model": fmodel, "commands": fcmds})
     reject = "recorded" if real_model == "recorded" else "aborts"
     other = "aborts" if reject == "recorded" else "recorded"
     suites = models(ctx.quick)
@@ -883,7 +900,7 @@ def _run(ctx):
     for tag, model in suites:
         jobs["graph_" + tag] = (model, cfg(False, reject, invariants=CORE_INV, properties=["Flow"], emit=True), dict(workers=1))
     # the intended workflow: careful operator, refresh records its rejects - every sentence, liveness included
-    jobs["careful_recorded"] = (main, cfg(True, "recorded", invariants=CORE_INV + CAREFUL_INV, properties=["Flow"] + LIVENESS), dict(workers=4))
+    jobs["careful_recorded"] = (main, cfg(True, "recorded", invariants=CORE_INV + CAREFUL_INV, properties=["Flow"] + LIVENESS), dict(workers=3))
     jobs["careful_aborts"] = (main, cfg(True, "aborts", invariants=CORE_INV + CAREFUL_INV, properties=["Flow"]), dict(workers=2))
     jobs["any_" + other] = (main, cfg(False, other, invariants=CORE_INV, properties=["Flow"]), dict(workers=2))
     # expected refutations (liveness): any operator with a fixed listing order; refresh_impl as written
@@ -895,8 +912,9 @@ def _run(ctx):
         jobs["careful_recorded_fixed_order"] = (main, cfg(True, "recorded", fixed=True, invariants=CORE_INV + CAREFUL_INV, properties=["Flow"] + LIVENESS), dict(workers=4))
         jobs["careful_recorded_g3b"] = (suites[1][1], cfg(True, "recorded", invariants=CORE_INV + CAREFUL_INV, properties=["Flow"] + LIVENESS), dict(workers=4))
 
-    ex = ThreadPoolExecutor(4)
-    order = sorted(jobs, key=lambda k: (not k.startswith("graph_"), k))
+    ex = ThreadPoolExecutor(5)
+    rank = ["graph_" + main_tag, "careful_recorded", "refute_any", "refute_aborts"]
+    order = sorted(jobs, key=lambda k: (rank.index(k) if k in rank else len(rank), k))
     futs = {k: ex.submit(tlc, "MCPipeline_" + k, jobs[k][0], jobs[k][1], **jobs[k][2]) for k in order}
 
     # ---- the walk (while the theorem jobs are still running) ----------------------------------------------
@@ -912,13 +930,13 @@ def _run(ctx):
         import time
         t0 = time.time()
         agg, pred = walk(ctx, pool, tag, g, tag)
-        print("walk", tag, round(time.time() - t0, 1), "s", agg["runs"], "runs, graph ready at", round(t0 - ctx.t0, 1))
+        wall = round(time.time() - t0, 1)
         for k, n in agg["edges_covered"]:
             ctx.distinct((tag, k, n))
         missed = len(g.state) - len(agg["spec_states_reached"])
         wnote[tag] = {"commands_executed_on_real_code": agg["runs"], "nodes (spec state, disk contents)": agg["nodes"],
                       "spec_states_reached": len(agg["spec_states_reached"]), "spec_states_not_reached_because_of_drift": missed,
-                      "edges_with_drift": agg["drift_edges"], "levels": agg["levels"],
+                      "edges_with_drift": agg["drift_edges"], "levels": agg["levels"], "wall_s": wall, "started_at_s": round(t0 - ctx.t0, 1),
                       "commands_that_died_as_the_spec_says": dict(sorted(agg["error_outcomes"].items())),
                       "ignore_rejects_runs_leaving_an_empty_skip_flag": agg["second_flag_empty"]}
         complete = complete and missed == 0 and agg["drift_edges"] == 0
@@ -939,7 +957,7 @@ def _run(ctx):
 
     # ---- observations: intended sentences that the code does not guarantee ---------------------------------
     obs = {}
-    g = graphs[main_tag] if not ctx.quick else graphs["g2"]
+    g = graphs[main_tag]
     for name in CAREFUL_INV:
         path = g.shortest_path(lambda k: g.sent[k][name] is False)
         if path is None:
@@ -957,18 +975,22 @@ def _run(ctx):
     for job, model, what in (("refute_any", wedge, "any operator, listings always in the order %s" % wedge["fixed"]),
                              ("refute_aborts", abort, "careful operator, refresh_impl's NotActionableError handler as written")):
         r = res[job]
-        if r.violated != "temporal":
+        if "Temporal property OkPublished was violated" not in r.output and r.violated != "temporal":
             ctx.machinery("TLC was expected to refute OkPublished for %s, it reports %r" % (what, r.violated))
         gg = Graph(r.json_lines("S"), model)
         states, back = parse_trace(r.output)
         if len(states) < 2 or back is None:
             ctx.machinery("cannot read TLC's counterexample of %s back" % job)
-        cmds = []
+        # the lasso TLC found: its stem is replaced by a shortest path of the same graph to the state where the lasso
+        # closes (the stem TLC prints depends on its fingerprint seed and is padded with commands that change nothing)
+        start = len(states) - 1 if back == "stuttering" else back - 1
         for a, b_ in zip(states, states[1:]):
-            lab = gg.label(a, b_)
-            if not lab:
+            if not gg.label(a, b_):
                 ctx.machinery("counterexample of %s: no command relates two consecutive states" % job)
-            cmds.append(lab[0][0])
+        stem = gg.shortest_path(lambda k: k == states[start])
+        if stem is None:
+            ctx.machinery("counterexample of %s: the lasso state is not in the dumped graph" % job)
+        cmds = [c for c, o in stem] + [gg.label(a, b_)[0][0] for a, b_ in zip(states[start:], states[start + 1:])]
         last = states[-1]
         dead = [(c, o) for c, o, t in gg.succ[last] if c["cmd"] in ("refresh", "process-todos", "publish")]
         bench, steps, synced = replay_commands(ctx, os.path.join(fast_tmp(ctx, "live"), "l"), model, cmds + [c for c, o in dead], graph=gg, judge=False)
@@ -982,24 +1004,26 @@ def _run(ctx):
     ctx.note("liveness_refutations_replayed", live)
     w = live["refute_any"]
     ctx.drift("OBSERVATION (intended workflow, not promised by the docs): nothing removes candidates/<id> of an image that was fetched, and "
-              "directories are moved with os.rename - a second `fetch` of such an image wedges the pipeline: [%s]; then every further %s; %s never published. "
+              "directories are moved with os.rename - a second `fetch` of such an image wedges the pipeline: [%s]; then every further [%s]; %s never published. "
               "TLC proves OkPublished for the careful operator and refutes it for the unrestricted one%s"
               % ("; ".join(w["commands"]), "; ".join(w["then_every_further"]), w["never_published"],
                  "" if w["real_code_follows_the_spec_along_it"] else " (the real code did NOT follow this counterexample)"))
     if real_model == "aborts":
         a = live["refute_aborts"]
         ctx.drift("OBSERVATION (intended: CandidateInput.save may raise NotActionableError, refresh_impl's handler means to touch rejects/<id> and go on): "
-                  "refresh dies with %s at such a candidate - open(os.path.join(rej_dir, uniq_id, 'wb')) has the mode inside the path - and the candidates after "
-                  "it in the feed are never recorded: [%s]; %s never published, the image never gets a skip.flag. TLC proves OkPublished / RejectFlagged "
-                  "for the handler as intended and refutes them for the handler as written"
-                  % (seen["error"], "; ".join(a["commands"] + a["then_every_further"]), a["never_published"]))
+                  "[source offers imgC (save raises), imgA; refresh] dies with %s - open(os.path.join(rej_dir, uniq_id, 'wb')) has the mode inside the path - "
+                  "with candidates/ = %s, rejects/ = %s: the candidates after it in the feed are never recorded and the image never gets a skip.flag, on every "
+                  "later refresh again. TLC proves OkPublished / RejectFlagged for the handler as intended and refutes OkPublished for the handler as written "
+                  "(counterexample of %s replayed on the real code: %s never published)"
+                  % (seen["error"], seen["candidates"], seen["rejects"], a["TLC"].split("counterexample of ")[1], a["never_published"]))
     elif real_model == "other":
         ctx.drift("refresh with a candidate whose save() raises NotActionableError implements neither model of the spec: %s" % (seen,))
     fresh = sorted(e for t in wnote.values() for e in t["commands_that_died_as_the_spec_says"] if "FileNotFoundError" in e)
     ctx.note("other_observations", {
         "commands_that_raise_instead_of_doing_nothing_on_a_work_dir_where_their_directory_was_never_created": fresh,
-        "ignore_rejects_shares_one_BytesIO_between_all_rejects": "every skip.flag after the first one of a run is written empty (%d runs seen); "
-                                                                  "refresh only tests for existence" % sum(t["ignore_rejects_runs_leaving_an_empty_skip_flag"] for t in wnote.values())})
+        "skip_flag_contents_after_ignore_rejects_with_two_rejects": flags,
+        "note": "ignore_rejects passes one BytesIO(b'{}') to every put_item: when the items differ, every skip.flag after the first of a run is "
+                "written empty (refresh only tests for existence, so the workflow is not affected)" if len(set(flags.values())) > 1 else "all alike"})
 
     # ---- the documented order of work once more, through the real command line parser ------------------------
     g = graphs[main_tag]
